@@ -339,7 +339,8 @@ func (c *clientHello) parseExtensions() error {
 				if !versions.ReadUint16(&v) {
 					return fmt.Errorf("%w: version", ErrDecodeError)
 				}
-				if v >= 0x0304 {
+				// GREASE values (RFC 8701) are not versions.
+				if v >= 0x0304 && !(v&0x0f0f == 0x0a0a && v>>8 == v&0xff) {
 					c.tls13 = true
 				}
 			}
